@@ -79,7 +79,10 @@ CHAINS = ["direct", "self-signed", "untrusted-ca", "inter-sent", "inter-missing"
           "public-ca"]
 TIMES = ["valid", "expired", "not-yet"]
 TRUSTS = ["file", "dir", "default"]
-MODES = ["eager", "lazy", "client-sni", "explicit-sni"]
+MODES = ["eager", "lazy", "client-sni", "explicit-sni",
+         # the TLS connection is not context.server but a second Server object (ServerTLSLayer(context, conn), as in the stack
+         # for an https:// upstream proxy); it is opened by the child
+         "other-conn"]
 VERS = ["1.3", "1.2"]
 
 _DEFAULT_LABELS = {"dns3": ["www", "example", "test"], "dns4": ["a", "b", "example", "test"], "idn": ["bücher", "example", "test"],
@@ -308,7 +311,7 @@ def matrix():
             for chain, time, trust in combos:
                 for insecure in (False, True):
                     rows.append({"ident": ident, "san": san, "chain": chain, "time": time, "trust": trust, "insecure": insecure,
-                                 "mode": MODES[(i + i // 16) % 4], "ver": VERS[(i // 4 + i // 64) % 2], "followup": (i // 2 + i // 32) % 2 == 0,
+                                 "mode": MODES[(i + i // 16) % 5], "ver": VERS[(i // 4 + i // 64) % 2], "followup": (i // 2 + i // 32) % 2 == 0,
                                  "split": [0, 1, 7][i % 3]})
                     i += 1
     return rows
@@ -373,7 +376,7 @@ def check_case(case, ctx):
     if host == "":
         mode = "explicit-sni"  # server.sni = "" (SNI disabled by an addon); an empty address cannot be connected to
     opts = {"ssl_insecure": insecure, "ssl_verify_upstream_trusted_ca": None, "ssl_verify_upstream_trusted_confdir": None,
-            "connection_strategy": "lazy" if mode == "lazy" else "eager"}
+            "connection_strategy": "lazy" if mode in ("lazy", "other-conn") else "eager"}
     if case["trust"] == "file":
         opts["ssl_verify_upstream_trusted_ca"] = E["ca_file"]
     elif case["trust"] == "dir":
@@ -391,8 +394,10 @@ def check_case(case, ctx):
         addr = ("elsewhere.example.test", 443)  # an addon/mode set server.sni: the certificate must name *that*
     else:
         addr = (host, 443)
-    d, c, rec, layers = T.make_stack(e, client_tls=(mode == "client-sni"), server_tls=True, server_open=(mode != "lazy"),
-                                     server_address=addr, server_sni=host if mode == "explicit-sni" else None)
+    d, c, rec, layers = T.make_stack(e, client_tls=(mode == "client-sni"), server_tls=True, server_open=(mode not in ("lazy", "other-conn")),
+                                     server_address=addr, server_sni=host if mode == "explicit-sni" else None,
+                                     other_server_conn=(mode == "other-conn"))
+    srv = d.server_conn
     wire = bytearray()
     peer_errors = []
 
@@ -408,25 +413,25 @@ def check_case(case, ctx):
         if out:
             wire.extend(out)
 
-    d.on_send[c.server] = on_send
+    d.on_send[srv] = on_send
 
     def pump():
         for _ in range(30):
             if not wire or d.crashed is not None:
                 return
-            if c.server.state.name == "CLOSED":
+            if srv.state.name == "CLOSED":
                 wire.clear()
                 return
             k = case["split"]
             n = len(wire) if not k else min(k, len(wire))
             seg = bytes(wire[:n])
             del wire[:n]
-            d.recv(c.server, seg)
+            d.recv(srv, seg)
             if k:
                 rest = bytes(wire)
                 wire.clear()
-                if rest and c.server.state.name != "CLOSED":
-                    d.recv(c.server, rest)
+                if rest and srv.state.name != "CLOSED":
+                    d.recv(srv, rest)
 
     d.start()
     if mode == "client-sni":
@@ -457,8 +462,8 @@ def check_case(case, ctx):
             pump()
             if not cwire and not wire:
                 break
-    elif mode == "lazy":
-        T.inject(d, commands.OpenConnection(c.server))
+    elif mode in ("lazy", "other-conn"):
+        T.inject(d, commands.OpenConnection(srv))
     pump()
 
     tag = "%s/%s/%s/%s" % (case["san"], case["chain"] if case["chain"] != "direct" else "", case["time"] if case["time"] != "valid" else "",
@@ -475,7 +480,7 @@ def check_case(case, ctx):
     if d.crashed is not None:
         ctx.fail("layer-crash-during-handshake:%s" % type(d.crashed).__name__, "%r row=%s" % (d.crashed, tag))
         return
-    established = bool(c.server.tls_established)
+    established = bool(srv.tls_established)
     names = d.hook_names()
     want = True if insecure else acceptable
     if insecure and (ref[0] == "none" or fails_closed_ok(case)):
@@ -485,8 +490,8 @@ def check_case(case, ctx):
         want = established
     # tls_start_server raised (swallowed by the addon manager) and the layer neither completed nor failed the handshake:
     # no error, no failure hook, no close, a waiting child never gets its OpenConnection reply -- the connection just hangs
-    stalled = (not established and bool(e.addon_errors) and not c.server.error and "tls_failed_server" not in names
-               and c.server.state.name != "CLOSED")
+    stalled = (not established and bool(e.addon_errors) and not srv.error and "tls_failed_server" not in names
+               and srv.state.name != "CLOSED")
     if stalled:
         ctx.fail("stalls-when-tls_start_server-raises:%s" % type(e.addon_errors[0][1]).__name__,
                  "host=%r mode=%s: hook raised %r; afterwards no error, no tls_failed_server, connection still open, child replies %r"
@@ -497,22 +502,22 @@ def check_case(case, ctx):
                  "verification enabled" % (host, cn, [_s(x) for x in sans], case["chain"], case["time"], case["trust"]))
     if not established and want:
         if insecure:
-            ctx.fail("insecure-but-rejected:%s" % tag, "host=%r error=%r addon=%r" % (host, c.server.error, e.addon_errors[:1]))
+            ctx.fail("insecure-but-rejected:%s" % tag, "host=%r error=%r addon=%r" % (host, srv.error, e.addon_errors[:1]))
         elif fails_closed_ok(case):
             ctx.cls("fails-closed-identity")
         else:
             ctx.fail("acceptable-rejected:%s" % tag, "host=%r cn=%r sans=%r error=%r addon=%r" % (
-                host, cn, [_s(x) for x in sans], c.server.error, e.addon_errors[:1]))
+                host, cn, [_s(x) for x in sans], srv.error, e.addon_errors[:1]))
 
     if established:
         if "tls_established_server" not in names or "tls_failed_server" in names:
             ctx.fail("hooks-on-success", "hooks=%r" % (names,))
-        if c.server.error:
-            ctx.fail("error-set-on-success", repr(c.server.error))
-        if mode == "lazy" and ("opened", None) not in rec.log:
+        if srv.error:
+            ctx.fail("error-set-on-success", repr(srv.error))
+        if mode in ("lazy", "other-conn") and ("opened", None) not in rec.log:
             ctx.fail("open-reply-on-success", "child got %r" % ([x for x in rec.log if x[0] == "opened"],))
         # transparency smoke: the marker arrives
-        T.inject(d, commands.SendData(c.server, MARKER))
+        T.inject(d, commands.SendData(srv, MARKER))
         if d.crashed is not None:
             ctx.fail("layer-crash-after-handshake:%s" % type(d.crashed).__name__, repr(d.crashed))
             return
@@ -520,21 +525,21 @@ def check_case(case, ctx):
         if bytes(S.plain) != MARKER:
             ctx.fail("marker-not-delivered", "server peer decrypted %r" % bytes(S.plain)[:60])
     else:
-        if not c.server.error and not stalled:
-            ctx.fail("failure-without-error:%s" % mode, "server.error=%r" % (c.server.error,))
+        if not srv.error and not stalled:
+            ctx.fail("failure-without-error:%s" % mode, "server.error=%r" % (srv.error,))
         if "tls_failed_server" not in names and not stalled:
             ctx.fail("failure-without-hook:%s" % mode, "hooks=%r addon_errors=%r" % (names, e.addon_errors[:1]))
         if "tls_established_server" in names:
             ctx.fail("established-hook-on-failure", "hooks=%r" % (names,))
-        if not any(t[0] == "close" and t[1] is c.server for t in d.trace) and c.server.state.name != "CLOSED" and not stalled:
-            ctx.fail("failure-without-close:%s" % mode, "server state %s" % c.server.state)
-        if mode == "lazy" and not stalled:
+        if not any(t[0] == "close" and t[1] is srv for t in d.trace) and srv.state.name != "CLOSED" and not stalled:
+            ctx.fail("failure-without-close:%s" % mode, "server state %s" % srv.state)
+        if mode in ("lazy", "other-conn") and not stalled:
             errs = [x[1] for x in rec.log if x[0] == "opened"]
             if len(errs) != 1 or not errs[0]:
                 ctx.fail("open-reply-on-failure", "child got OpenConnection replies %r" % (errs,))
         if case["followup"]:
             # whatever the child does next, no application byte may reach that server
-            T.inject(d, commands.SendData(c.server, MARKER))
+            T.inject(d, commands.SendData(srv, MARKER))
             if d.crashed is not None:
                 # SSL.Error from TLSLayer.send_data on the dead connection object: the connection handler dies, nothing
                 # is sent.  Not covered by the statement (which only demands that no data reaches the server) -> counted.
@@ -543,7 +548,7 @@ def check_case(case, ctx):
         S.pump_read()
         if S.plain:
             ctx.fail("application-data-after-failed-verification:%s" % tag, "server decrypted %r" % bytes(S.plain)[:60])
-        if MARKER in d.out(c.server):
+        if MARKER in d.out(srv):
             ctx.fail("plaintext-to-server-after-failure", "marker sent in the clear")
 
 
